@@ -5,6 +5,7 @@ import Req.Client.Backoff
 import Req.Client.RetryDyn
 import Req.Client.Exchange
 import Req.Client.Backoff64
+import Req.Client.RetryKinds
 /-!
 Driver lanes of C10.
 
@@ -628,7 +629,29 @@ def laneBackoff64 : List String → String
     r.getD "bad-op"
   | _ => "bad-op"
 
+/-- `c10kind <cause> <ctx> <code>` → the script symbol of `Att.outcome`, whether an error of that
+cause matches `context.DeadlineExceeded` / `context.Canceled` under `errors.Is`, coherence. -/
+def laneKind : List String → String
+  | [cause, ctx, code] =>
+    let r : Option String := do
+      let cause ← match cause with
+        | "none" => some Req.RetryKinds.Cause.none | "transport" => some .transport
+        | "clientTimeout" => some .clientTimeout | "netTimeout" => some .netTimeout
+        | "ctxDeadline" => some .ctxDeadline | "ctxCanceled" => some .ctxCanceled | _ => none
+      let ctx ← match ctx with
+        | "alive" => some Req.RetryKinds.Ctx.alive | "canceled" => some .canceled | "expired" => some .expired | _ => none
+      let a : Req.RetryKinds.Att := ⟨cause, ← code.toNat?, ctx⟩
+      let sym ← match a.outcome with
+        | .status c => some ("s" ++ toString c) | .lateCancel c => some ("L" ++ toString c)
+        | .cancelled => some "c" | .transportErr => some "t" | .lateTransport => some "T"
+        | .deadline => some "d" | .deadlineCtx => some "D" | _ => none
+      let b (x : Bool) : String := if x then "1" else "0"
+      pure (sym ++ " dl=" ++ b cause.isDeadlineExceeded ++ " cn=" ++ b cause.isCanceled ++ " coh=" ++ b a.coherent)
+    r.getD "bad-op"
+  | _ => "bad-op"
+
 def lanes : List (String × (List String → String)) := [
+  ("c10kind", laneKind),
   ("c10half", laneHalf64),
   ("c10backoff64", laneBackoff64),
   ("c10inner", laneInner),
